@@ -421,13 +421,16 @@ def check_c17(tier, seed, res, work):
             continue
         # the same run in other environments (variables, locale, CPUs, open-file limit): the same report
         if trial < 2 and not gha:
-            for ov in ENV_MATRIX:
+            dead = 'http://127.0.0.1:9'
+            rel = [('release build, telemetry enabled', dict(HTTPS_PROXY=dead, HTTP_PROXY=dead, https_proxy=dead, http_proxy=dead), None)] if os.path.exists(B + '/pathfinder-release') else []
+            for ov in ENV_MATRIX + rel:
                 if 'GITHUB_ACTIONS' in ov[1]:
                     continue
                 out2 = expected_path + '.env'
                 if os.path.exists(out2):
                     os.remove(out2)
-                rc2, o2, e2 = run_env([B + '/pathfinder', 'ci', '--disable-metrics', '--project', proj, '--ruleset', rs_arg, '--output', fmt, '--output-file', out2], ov, timeout=300, base=env, cwd=cwd_)
+                cmdl = [B + '/pathfinder-release', 'ci'] if ov[0].startswith('release build') else [B + '/pathfinder', 'ci', '--disable-metrics']
+                rc2, o2, e2 = run_env(cmdl + ['--project', proj, '--ruleset', rs_arg, '--output', fmt, '--output-file', out2], ov, timeout=300, base=env, cwd=cwd_)
                 stats['environment_runs'] += 1
                 try:
                     rep2 = json.load(open(out2))
